@@ -253,7 +253,7 @@ def late_partial_family(ctx, n):
     Spec for request 1: the first frame with transaction id 1 that the MBAP length fields cut from the WHOLE stream of the
     connection (Spec ref_client_result evaluated in Coq on the concatenated bytes)."""
     r = ctx.rng
-    lines, terms, wants = [], [], []
+    lines, terms, wants, sess = [], [], [], []
     for _ in range(n):
         fake = mbap(1, [3, 2, 0xBE, 0xEF])                                  # 11 bytes that look like a reply to tx 1
         pad = [r.randrange(256) for _ in range(r.choice([1, 3, 5]))]
@@ -276,22 +276,30 @@ def late_partial_family(ctx, n):
         lines.append('cap=4 handles=1 mt=0 rmin=20000000 rmax=40000000 | ' + ' '.join(steps))
         stream = reply0 + reply1
         terms.append(f'(Base.ClientTypes.RReadHoldingRegisters (200, 1), 1, [{";".join(str(b) for b in stream)}], Base.Frame.FinPending)')
+        nl = lambda b: '[' + ';'.join(str(x) for x in b) + ']'
+        ch1 = [reply0[cut:]] + [bytes.fromhex(x[2:]) for x in steps[8:]]
+        sess.append(f'[(Base.ClientTypes.RReadHoldingRegisters (100, {n0}), [{nl(reply0[:cut])}]); (Base.ClientTypes.RReadHoldingRegisters (200, 1), [{"; ".join(nl(list(c)) for c in ch1 if len(c))}])]')
     impl = ctx.harness('client', lines, shards=4)
     ctx.build_models(['Spec.SystemClientShow'])
     spec = ctx.coq_eval(['Spec.SystemClientShow', 'Base.ClientTypes', 'Base.Frame'], 'eval_spec', terms,
                         case_type='Base.ClientTypes.request * N * list N * Base.Frame.fin')
+    # the same two exchanges through the composed model `client_session` (one reader for the connection) and its Spec
+    msess = [None] * len(lines)
+    if cl.MODEL_OK and ctx.build_models(['Model.SystemClientEval']):
+        msess = ctx.coq_eval(['Model.SystemClientEval', 'Base.ClientTypes'], 'eval_session', sess, case_type='list (Base.ClientTypes.request * list (list N))')
     bad = 0
-    for line, i, want in zip(lines, impl, spec):
+    for line, i, want, ms in zip(lines, impl, spec, msess):
         p = cl.parse(cl.canon(i))
         got = {cid: cls for cid, cls, _ in p['comp']} if p else {}
         ended = [t for t in (p['task'] if p else []) if t[0] == 'e']
         r0, r1 = got.get(100), got.get(200, 'Pending')
-        if r0 != 'Timeout' or r1 != want or ended:
+        model_ok = ms is None or (ms.split('|')[0] == ms.split('|')[1] and ms.split('|')[0].split() == ['Pending', want])
+        if r0 != 'Timeout' or r1 != want or ended or not model_ok:
             bad += 1
             if bad == 1:
                 ctx.violation('C11.late-remainder-of-a-timed-out-reply-disturbs-the-next-request',
                               f'[{line}]: request 100 must time out and request 200 (tx 1) must see {want} (Spec: first frame with tx 1 in the whole stream), the connection must stay up; '
-                              f'the client reports 100 -> {r0}, 200 -> {r1}, session ends {ended}; impl={i}',
+                              f'the client reports 100 -> {r0}, 200 -> {r1}, session ends {ended}; client_session|ref_session = {ms}; impl={i}',
                               {'late_partial': [line], 'impl': i, 'spec_for_second_request': want})
     ctx.oblige('correspondence:late-remainder-then-next-request-vs-spec-on-the-whole-stream', bad == 0, f'{bad} of {len(lines)}')
     return len(lines)
